@@ -224,7 +224,7 @@ int main(void) {
           size_t pos = strtoul(a[i] + 1, 0, 10);
           uint8_t *b; size_t l = unhex(colon + 1, &b); char *e = exact(b, l);
           iwrc rc = iwxstr_insert(x, pos, e, l);
-          if (rc) printf("rc%d ", (int) (rc - IW_ERROR_START));
+          if (rc == IW_ERROR_OUT_OF_BOUNDS) printf("oob "); else if (rc) printf("rc%" PRIu64 " ", (uint64_t) rc);
           zfree(e, l); free(b);
         }
       }
